@@ -1,12 +1,5 @@
-#![allow(dead_code)]
-mod checks;
-mod common;
-mod drive;
-mod explore;
-mod fam_lock;
-mod prog;
-
-use common::Tier;
+use vx::common::Tier;
+use vx::{checks, drive};
 
 fn main() {
     let args: Vec<String> = std::env::args().collect();
